@@ -1171,7 +1171,13 @@ impl ValueTable {
 		mut f: impl FnMut(u64, u32, Vec<u8>, bool) -> bool,
 	) -> Result<()> {
 		let written = self.written.load(Ordering::Relaxed);
-		for index in 1..written {
+		// Entries are read through the log overlay: also visit the ones appended by records
+		// that are logged but not enacted yet.
+		let filled = self.filled.load(Ordering::Relaxed);
+		for index in 1..std::cmp::max(written, filled) {
+			if index >= written && log.value_ref(self.id, index).is_none() {
+				continue
+			}
 			let mut result = Vec::new();
 			// expect only indexed key.
 			let mut _fetch_key = Default::default();
